@@ -7,6 +7,8 @@ import time
 
 VERIFICATION_FAILURES = [
     (re.compile(r'postcondition not satisfied'), 'postcondition'),
+    (re.compile(r'unable to prove post-?condition of closure'), 'closure-postcondition'),
+    (re.compile(r'unable to prove pre-?condition of closure|closure.*precondition'), 'closure-precondition'),
     (re.compile(r'precondition not satisfied'), 'callee-precondition'),
     (re.compile(r'assertion failed'), 'assertion'),
     (re.compile(r'invariant not satisfied at end of loop body'), 'invariant-preserved'),
